@@ -117,3 +117,22 @@ Fixpoint expand_ellipsis (pad : nat) (slice : list slice_elem) : list slice_elem
   | SEllipsis :: r => repeat (SSub None None None) pad ++ expand_ellipsis pad r
   | x :: r => x :: expand_ellipsis pad r
   end.
+
+(* ------------------------------------------------------------------ gemm *)
+(* the last two coordinates (or dimensions) [a; b] of an operand, swapped when the operand is
+   given transposed *)
+Definition tr_pair (t : bool) (a b : Z) : list Z := if t then [b; a] else [a; b].
+
+(* ------------------------------------------------------------------ stack / concatenate *)
+(* Stack: the common (broadcast) shape of the stacked items; scalars are stacked as one-element
+   arrays, the trailing dimension 1 not being recorded in the result shape *)
+Definition stack_inner (inner : list Z) : list Z := match inner with [] => [1] | _ => inner end.
+
+(* numpy.concatenate along an axis whose operand sizes are [ns]: coordinate x of the result lies
+   in operand q at local coordinate y, where (q, y) = concat_locate ns x *)
+Fixpoint concat_locate (ns : list Z) (x : Z) : nat * Z :=
+  match ns with
+  | [] => (O, x)
+  | n :: r => if x <? n then (O, x)
+              else (S (fst (concat_locate r (x - n))), snd (concat_locate r (x - n)))
+  end.
